@@ -1,0 +1,70 @@
+//go:build verif
+
+package engine
+
+import (
+	"os"
+	"strings"
+	"time"
+)
+
+// verif hook H4: lets a test harness decide WHEN the background reorganisation runs.
+// When VERIF_COMPACT_CTL names a file, a goroutine waits for that file to appear; its content is a
+// command (merge | compact | full | all). The command runs the same planner entry points the
+// 10 s ticker of the Compactor uses, for every registered shard, waits until the scheduled work
+// is finished and then writes "<file>.done". Nothing here changes what is planned or how.
+func init() {
+	ctl := os.Getenv("VERIF_COMPACT_CTL")
+	if ctl == "" {
+		return
+	}
+	go func() {
+		for {
+			time.Sleep(20 * time.Millisecond)
+			b, err := os.ReadFile(ctl)
+			if err != nil {
+				continue
+			}
+			_ = os.Remove(ctl)
+			verifReorg(strings.TrimSpace(string(b)))
+			_ = os.WriteFile(ctl+".done", b, 0600)
+		}
+	}()
+}
+
+func verifReorg(cmd string) {
+	compWorker.mu.RLock()
+	shards := make([]*shard, 0, len(compWorker.sources))
+	for _, sh := range compWorker.sources {
+		shards = append(shards, sh)
+	}
+	compWorker.mu.RUnlock()
+
+	for _, sh := range shards {
+		select {
+		case <-sh.closed.Signal():
+			continue
+		default:
+		}
+		id := sh.GetID()
+		if cmd == "merge" || cmd == "all" {
+			_ = sh.immTables.MergeOutOfOrder(id, false, false)
+			verifWait(sh)
+		}
+		if cmd == "compact" || cmd == "all" {
+			_ = sh.Compact()
+			verifWait(sh)
+		}
+		if cmd == "full" {
+			sh.ForceFlush()
+			_ = sh.immTables.FullCompact(id)
+			verifWait(sh)
+		}
+	}
+}
+
+func verifWait(sh *shard) {
+	if w, ok := sh.immTables.(interface{ Wait() }); ok {
+		w.Wait()
+	}
+}
